@@ -82,6 +82,25 @@ def upgradWeights (J : Mat α) (s normEps regEps : α) (u : Vec α) : Option (Ve
     some (vsum m (ws.map (·.1)), vmin (ws.map (·.2)) 1)
   else none
 
+/-- the vector UPGrad projects for objective `i`: `u_i e_i` (the expression used in `upgradWeights`) -/
+def prefRow (m i : Nat) (ui : α) : Vec α := (List.range m).map fun j => if j = i then ui else 0
+
+/-- the individual projections UPGrad sums (certified search on any Gramian `G`): row `i` is the answer for `u_i e_i` -/
+def upgradRows (G : Mat α) (u : Vec α) : Option (List (Vec α)) :=
+  let m := u.length
+  let rows := (List.range m).map fun i => qpProject G (prefRow m i (u.getD i 0))
+  if rows.all Option.isSome then some ((rows.filterMap id).map (·.1)) else none
+
+/-- a minimiser of the row-scaled problem obtained from a minimiser `w` of the unscaled one -/
+def rescaleW (m i : Nat) (c w : Vec α) : Vec α :=
+  (List.range m).map fun k => w.getD k 0 * c.getD i 0 / c.getD k 0
+
+/-- `Σ_i |w₀ᵢ(cc)|²` for the un-regularised minimisers `ws` rescaled to `diag(cc) J`: the quantity that multiplies
+    `reg_eps · s²` in the bound on UPGrad's linearity defect (C09) -/
+def unregSumsq (ws : List (Vec α)) (cc : Vec α) : α :=
+  let m := cc.length
+  ((List.range m).map fun i => dot (rescaleW m i cc (ws.getD i [])) (rescaleW m i cc (ws.getD i []))).sum
+
 /-! ### MGDA -/
 
 /-- first index of the minimum (`torch.argmin`) and the gap to the runner-up -/
